@@ -10,7 +10,7 @@ Definition has_enc (g : gstate) : bool := match g.(g_enc) with Some _ => true | 
 
 Section Glue.
   Variable P : Type.
-  Variable encode : enc -> P -> res (list packet * enc) + unit.
+  Variable encode : enc -> P -> res (list packet * enc) + enc.
 
   (* the encoder and offset in force when the unit is encoded: the existing ones, or the ones created from the
      first oversized incoming packet *)
